@@ -223,4 +223,3 @@ func runStress(dir string, rounds int, traceFile string, lease time.Duration) {
 	must(w.Close())
 	fmt.Printf("rounds=%d events=%d\n", rounds, w.Count())
 }
-
